@@ -21,6 +21,7 @@ import (
 	"sort"
 	"strconv"
 	"strings"
+	"time"
 
 	"github.com/openGemini/openGemini/engine/immutable"
 	"github.com/openGemini/openGemini/lib/config"
@@ -403,11 +404,13 @@ type caseCtx struct {
 	rec      *crashfs.Recorder
 	lastFl   map[uint64]int64
 	hasFl    map[uint64]bool
+	seen     map[uint64]int64 // per series: newest time written to any file
 	nSeries  int
 	fields   []fieldDef
 	hist     []string
 	nimg     int
 	quick    bool
+	readers  bool
 }
 
 func (c *caseCtx) genValue(f fieldDef) string {
@@ -429,7 +432,11 @@ func (c *caseCtx) genValue(f fieldDef) string {
 
 // flush: one generated batch is split per series exactly like a memtable flush does (times above the series' last
 // flushed time go to an ordered file, the rest to an out-of-order file with the same sequence number).
-func (c *caseCtx) flush(maxT *int64) {
+// kind 0: the ordinary split; kind 1: fresh rows only (ordered file only); kind 2: a flush that found ordered files but
+// no loaded sequencer (mutable/ts_table.go: flushTime = MaxInt64): EVERY row, however new, goes to the out-of-order file.
+func (c *caseCtx) flush(maxT *int64) { c.flushKind(maxT, 0) }
+
+func (c *caseCtx) flushKind(maxT *int64, kind int) {
 	seq := c.st.NextSequence()
 	ord := map[uint64][]row{}
 	unord := map[uint64][]row{}
@@ -449,6 +456,9 @@ func (c *caseCtx) flush(maxT *int64) {
 		flds = []fieldDef{c.fields[c.r.Intn(len(c.fields))]}
 	}
 	mode := c.r.Intn(10) // 0-5 fresh, 6-7 mixed, 8-9 old only
+	if kind != 0 {
+		mode = 0
+	}
 	for sid := range sids {
 		n := c.r.Range(1, 12)
 		if c.r.Chance(1, 8) {
@@ -460,8 +470,11 @@ func (c *caseCtx) flush(maxT *int64) {
 			fresh := mode <= 5 || (mode <= 7 && c.r.Bool()) || !c.hasFl[sid]
 			if fresh {
 				base := *maxT
-				if c.r.Chance(1, 3) && c.hasFl[sid] {
+				if kind == 0 && c.r.Chance(1, 3) && c.hasFl[sid] {
 					base = c.lastFl[sid] // right after the series' own last time: overlapping ranges between series
+					if c.seen[sid] > base {
+						base = c.seen[sid] // never on top of rows that sit (newer) in an out-of-order file
+					}
 				}
 				t = base + int64(c.r.Range(1, 6))
 			} else {
@@ -488,7 +501,10 @@ func (c *caseCtx) flush(maxT *int64) {
 				f := flds[c.r.Intn(len(flds))]
 				rw.Vals[f.Name] = c.genValue(f)
 			}
-			if c.hasFl[sid] && t <= c.lastFl[sid] {
+			if t > c.seen[sid] {
+				c.seen[sid] = t
+			}
+			if kind == 2 || (c.hasFl[sid] && t <= c.lastFl[sid]) {
 				unord[sid] = append(unord[sid], rw)
 			} else {
 				ord[sid] = append(ord[sid], rw)
@@ -533,6 +549,13 @@ func (c *caseCtx) flush(maxT *int64) {
 	}
 	no := write(ord, true)
 	nu := write(unord, false)
+	for _, rs := range unord {
+		for _, rw := range rs {
+			if rw.T > *maxT {
+				*maxT = rw.T
+			}
+		}
+	}
 	for sid, rs := range ord {
 		for _, rw := range rs {
 			if !c.hasFl[sid] || rw.T > c.lastFl[sid] {
@@ -627,6 +650,25 @@ func (c *caseCtx) runOp(op string, emit func(*Instance)) {
 			}
 		}
 	})
+	// a reader (query) that holds references on the current files while the reorganisation replaces them: the old
+	// files are then parked as .init and collected later instead of being removed (deleteFiles / removeFile)
+	var held []immutable.TSSPFile
+	if c.readers {
+		tr := util.TimeRange{Min: math.MinInt64, Max: math.MaxInt64}
+		o, u, _ := c.st.GetBothFilesRef(mst, false, tr, nil)
+		held = append(append(held, o...), u...)
+		if c.r.Chance(1, 2) && len(held) > 1 { // sometimes only some of the files are held
+			keep := held[:0:0]
+			for _, f := range held {
+				if c.r.Bool() {
+					keep = append(keep, f)
+				} else {
+					f.Unref()
+				}
+			}
+			held = keep
+		}
+	}
 	var err error
 	switch op {
 	case "level0":
@@ -643,6 +685,21 @@ func (c *caseCtx) runOp(op string, emit func(*Instance)) {
 	if err != nil {
 		panic(err)
 	}
+	if len(held) > 0 {
+		immutable.UnrefFiles(held...)
+		// let the table-store GC (200 ms tick) remove the parked files before the next operation is recorded
+		for i := 0; i < 40; i++ {
+			ents, _ := listDir(c.shardDir)
+			left := false
+			for _, e := range ents {
+				left = left || e.Init
+			}
+			if !left {
+				break
+			}
+			time.Sleep(50 * time.Millisecond)
+		}
+	}
 	after, bad1 := dumpStore(c.st)
 	var opFail []string
 	if d := dumpDiff(before, after); d != "" {
@@ -651,7 +708,11 @@ func (c *caseCtx) runOp(op string, emit func(*Instance)) {
 	if len(bad0) == 0 {
 		opFail = append(opFail, bad1...)
 	}
-	c.hist = append(c.hist, fmt.Sprintf("%s[%dev]", op, len(events)))
+	rd := ""
+	if len(held) > 0 {
+		rd = fmt.Sprintf(",held%d", len(held))
+	}
+	c.hist = append(c.hist, fmt.Sprintf("%s[%dev%s]", op, len(events), rd))
 	c.analyse(op, events, pend, fs0, before, opFail, emit)
 	for _, p := range pend {
 		os.RemoveAll(p.dir)
@@ -952,7 +1013,7 @@ func (c *caseCtx) fillImage(img *Image, r reopenResult, before map[key]string, r
 }
 
 func runCase(idx int, r *gen.Rand, work string, rec *crashfs.Recorder, quick bool, emit func(*Instance)) {
-	c := &caseCtx{idx: idx, r: r, rec: rec, quick: quick, lastFl: map[uint64]int64{}, hasFl: map[uint64]bool{}}
+	c := &caseCtx{idx: idx, r: r, rec: rec, quick: quick, lastFl: map[uint64]int64{}, hasFl: map[uint64]bool{}, seen: map[uint64]int64{}}
 	c.dir = filepath.Join(work, fmt.Sprintf("case%d", idx))
 	c.shardDir = filepath.Join(c.dir, "shard")
 	_ = os.RemoveAll(c.dir)
@@ -981,16 +1042,33 @@ func runCase(idx int, r *gen.Rand, work string, rec *crashfs.Recorder, quick boo
 	c.st = newStore(c.shardDir, c.conf)
 	c.st.CompactionEnable()
 	maxT := int64(100)
-	program := r.Intn(6)
+	program := r.Intn(8)
+	c.readers = r.Chance(1, 3)
 	nfl := r.Range(minGroup, minGroup+3)
 	if nfl >= 2*minGroup && !r.Chance(1, 6) {
 		nfl = 2*minGroup - 1 // a single compaction plan; otherwise two plans run concurrently (direct oracle only)
 	}
-	for i := 0; i < nfl; i++ {
-		c.flush(&maxT)
+	if program >= 6 {
+		// several ordered files sharing series, then out-of-order data NEWER than everything ordered (flushed without a
+		// loaded sequencer), then the merge: no ordered file overlaps or follows the out-of-order time range
+		nfl = r.Range(2, 5)
+		for i := 0; i < nfl; i++ {
+			c.flushKind(&maxT, 1)
+		}
+		for i := 0; i < r.Range(1, 2); i++ {
+			c.flushKind(&maxT, 2)
+		}
+	} else {
+		for i := 0; i < nfl; i++ {
+			c.flush(&maxT)
+		}
 	}
 	var ops []string
 	switch program {
+	case 6:
+		ops = []string{"merge"}
+	case 7:
+		ops = []string{"merge", "flush", "level0", "full"}
 	case 0:
 		ops = []string{"level0"}
 	case 1:
